@@ -565,6 +565,69 @@ func checkFallback(c *fw.Ctx) {
 		c.Expect(strings.Contains(conds, ".Type(") && strings.Contains(conds, "StateKeyEquals("), rule, "the fallback inserts only the auth event of the needed (type, state_key)", c.P.Pos(dc.Call.Pos()), "", "conditions: "+conds)
 	}
 	c.Expect(nfb > 0, rule, "auth-event fallback insertion", c.P.Pos(fn.Pos()), "", "no insertion of an event taken from the auth event map was recognised")
+	// the event's own auth events are a fallback only: they are consulted where the partial
+	// (resolved) state has no entry for the tuple, never on top of an entry it has
+	hasResolvedFields := false
+	if recv := fn.Signature.Recv(); recv != nil {
+		if st := derefStructOf(recv.Type()); st != nil {
+			for i := 0; i < st.NumFields(); i++ {
+				if strings.HasPrefix(st.Field(i).Name(), "resolved") {
+					hasResolvedFields = true
+				}
+			}
+		}
+	}
+	for _, dc := range deepCallsTo(fn, addEvent) {
+		s := fw.SigIn(dc.Fr, dc.Call.Common().Args[1])
+		if !strings.Contains(s, "authEventMap[") {
+			continue
+		}
+		construct := "an event's own auth events are used only where the partial state has no entry"
+		opaque := ""
+		absentIn := func(facts []string) bool {
+			res := false
+			for _, f := range facts {
+				neg := strings.HasPrefix(f, "!")
+				atom := strings.TrimPrefix(f, "!")
+				if strings.Contains(atom, ".resolved") {
+					if (strings.HasSuffix(atom, "== nil)") && !neg) || (strings.HasSuffix(atom, "!= nil)") && neg) || (strings.HasSuffix(atom, "#1") && neg) {
+						res = true
+					}
+				}
+				if fw.AtomCallsUnexportedHelper(atom) {
+					opaque = atom
+				}
+			}
+			return res
+		}
+		absent := absentIn(fw.DeepFacts(dc.Fr, dc.Call.Block()))
+		// an insertion inside a function literal: the test may sit at the literal's call sites
+		if host := dc.Call.Parent(); !absent && host.Parent() != nil && (dc.Fr == nil || dc.Fr.Callee != host) {
+			nSites, okSites := 0, 0
+			for _, f := range fw.FamilyOf(host.Parent()) {
+				for _, cs := range fw.Calls(f) {
+					if cs.Common().StaticCallee() == host {
+						nSites++
+						if absentIn(fw.DeepFacts(dc.Fr, cs.Block())) {
+							okSites++
+						}
+					}
+				}
+			}
+			absent = nSites > 0 && okSites == nSites
+			if nSites == 0 {
+				opaque = "a function literal whose call sites were not found"
+			}
+		}
+		switch {
+		case absent:
+			c.Ok(rule, construct, c.P.Pos(dc.Call.Pos()), "")
+		case !hasResolvedFields || opaque != "":
+			c.Undecided(rule, construct, "no test of the partial state was recognised before the insertion at "+c.P.Pos(dc.Call.Pos())+" (opaque condition: "+opaque+")")
+		default:
+			c.Fail(rule, construct, c.P.Pos(dc.Call.Pos()), "an auth event cited by the event itself is inserted without a test that the resolved partial state lacks that (type, state_key): AddEvent overwrites the partial-state entry, so the event is authorised against the state it cites instead of the state resolved so far")
+		}
+	}
 }
 
 func checkAuthDifference(c *fw.Ctx) {
